@@ -20,7 +20,7 @@ adapter.boot()
 
 from vf.compat import execsub, lower  # noqa: E402
 
-REPO_PREFIXES = ("/repo/guppylang/src/", "/repo/guppylang-internals/src/")
+REPO_PREFIXES = tuple(p + "/" for p in adapter.REPO_PATHS)
 VERIF_ROOT = Path(__file__).resolve().parent.parent
 
 
